@@ -51,6 +51,7 @@ def run(prog, tier):
         if name in GADGET and alloc is not None:
             check_layout(R, prog, fi, name, alloc)
     check_negop(R, prog)
+    check_gadget_closures(R, prog)
     check_complement(R, prog, table)
     check_ycard(R, prog)
     check_apply(R, prog)
@@ -436,7 +437,9 @@ def check_complement(R, prog, table):
     # all equal
     fi = prog.func(MOD, "AllEqualSubstitution")
     cl = closure(prog, fi, "aesubst")
-    ok_inv = any(isinstance(s, ast.If) and src(s.test) == fi.params[2] and [src(x) for x in s.body] == ["%s *= -1" % cl.params[0]]
+    lp = cl.params[0]
+    negations = {"%s *= -1" % lp, "%s = -%s" % (lp, lp), "%s = %s * -1" % (lp, lp), "%s = -1 * %s" % (lp, lp)}
+    ok_inv = any(isinstance(s, ast.If) and src(s.test) == fi.params[2] and len(s.body) == 1 and src(s.body[0]) in negations and not s.orelse
                  for s in stmts_in(cl.node))
     eq_ok = nae_ok = False
     for s in stmts_in(cl.node):
@@ -667,3 +670,99 @@ def check_cli_names(R, prog):
     extra = set(seen) - set(want)
     for nm in sorted(x for x in extra if x is not None):
         R.unknown("CLI-NAME-TABLE", "-T %s" % nm, seen[nm].key, "helper not in the documented table")
+
+
+# ------------------------------------------------------------------ gadget closures: sign on every path, no stale captured value
+def gadget_closures(prog):
+    """(outer function, closure) for every closure handed to apply_substitution in the transformations module"""
+    out = []
+    m = prog.modules[MOD]
+    for q, fi in sorted(m.functions.items()):
+        if "<locals>" in q:
+            continue
+        for c in [x for x in walk_shallow(fi.node) if isinstance(x, ast.Call) and call_name(x) == "apply_substitution" and len(x.args) >= 2]:
+            if isinstance(c.args[1], ast.Name):
+                cl = closure(prog, fi, c.args[1].id)
+                if cl is not None and (fi, cl) not in out:
+                    out.append((fi, cl))
+    return out
+
+
+def check_gadget_closures(R, prog):
+    pairs = gadget_closures(prog)
+    ns = 0
+    for fi, cl in pairs:
+        lit = cl.params[0] if cl.params else None
+        # SIGN-PATH: a gadget that distinguishes the sign of its literal does so on every path to a return
+        cfg = CFG(cl.node)
+        sign_nodes = []
+        for st in stmts_in(cl.node):
+            if isinstance(st, ast.If):
+                for t in ast.walk(st.test):
+                    if isinstance(t, ast.Compare) and len(t.ops) == 1 and isinstance(t.ops[0], (ast.Gt, ast.Lt, ast.GtE, ast.LtE)) and \
+                            {src(t.left), src(t.comparators[0])} == {lit, "0"}:
+                        sign_nodes.append(cfg.node_of(st))
+        sign_nodes = [n for n in sign_nodes if n is not None]
+        if sign_nodes:
+            ns += 1
+            if cfg.reaches(cfg.entry, cfg.exit, avoid=sign_nodes):
+                R.bad(F("SIGN-PATH", cl, "%s returns without looking at the sign" % cl.qualname.split(".")[-1],
+                        "the gadget tests the sign of `%s`, but some path reaches a return before / around that test: on that path the "
+                        "positive and the negative literal get the same clauses, so x and not x are both true (or both false) there" % lit))
+            else:
+                R.ok("SIGN-PATH", "%s: every path to a return passes the test on the sign of `%s`" % (cl.qualname.split(".")[-1], lit), cl.key)
+        # CAPTURE-STALE: a value derived from a captured name before that name is rebound
+        check_stale(R, fi, cl)
+    R.floor("SIGN-PATH closures", ns, 6)
+
+
+def check_stale(R, fi, cl):
+    bound_in_cl = set(cl.params)
+    for n in ast.walk(cl.node):
+        if isinstance(n, ast.Name) and isinstance(n.ctx, ast.Store):
+            bound_in_cl.add(n.id)
+    free = {n.id for n in ast.walk(cl.node) if isinstance(n, ast.Name) and isinstance(n.ctx, ast.Load)} - bound_in_cl
+    stmts = [s for s in stmts_in(fi.node)]
+    defs = {}
+    for s_ in stmts:
+        if isinstance(s_, ast.Assign):
+            for t in s_.targets:
+                for nm in ast.walk(t):
+                    if isinstance(nm, ast.Name) and isinstance(nm.ctx, ast.Store):
+                        defs.setdefault(nm.id, []).append(s_)
+        elif isinstance(s_, ast.AugAssign) and isinstance(s_.target, ast.Name):
+            defs.setdefault(s_.target.id, []).append(s_)
+    captured = sorted(x for x in free if x in fi.params or x in defs)
+    cfg = CFG(fi.node)
+
+    def depends(expr_stmt, x, seen=()):
+        for nm in ast.walk(expr_stmt.value):
+            if isinstance(nm, ast.Name) and isinstance(nm.ctx, ast.Load):
+                if nm.id == x:
+                    return True
+                if nm.id not in seen and len(defs.get(nm.id, [])) == 1 and nm.id not in fi.params and \
+                        isinstance(defs[nm.id][0], ast.Assign) and depends(defs[nm.id][0], x, seen + (nm.id,)):
+                    return True
+        return False
+    bad = False
+    for x in captured:
+        rebinds = defs.get(x, []) if x in fi.params else defs.get(x, [])[1:]
+        for rb in rebinds:
+            for y in captured:
+                if y == x:
+                    continue
+                for d in defs.get(y, []):
+                    if d is rb or not isinstance(d, ast.Assign) or not depends(d, x):
+                        continue
+                    dn, rn = cfg.node_of(d), cfg.node_of(rb)
+                    later = [d2 for d2 in defs.get(y, []) if d2 is not d and cfg.node_of(d2) is not None and rn is not None
+                             and cfg.reaches(rn, cfg.node_of(d2))]
+                    if dn is not None and rn is not None and dn is not rn and cfg.reaches(dn, rn) and not later:
+                        bad = True
+                        R.bad(F("CAPTURE-STALE", fi, "%s: `%s` derived from `%s` before `%s` is rewritten" % (fi.qualname, y, x, x),
+                                "`%s` (line %d) is computed from `%s`, then `%s` is rebound (line %d) and the gadget `%s` uses both: the "
+                                "derived value belongs to the old `%s` (e.g. the negated operator of an operator that was replaced afterwards)"
+                                % (y, d.lineno, x, x, rb.lineno, cl.qualname.split(".")[-1], x), rb))
+    if not bad:
+        R.ok("CAPTURE-STALE", "%s: the %d names captured by %s are consistent (none rebound after a value was derived from it)"
+             % (fi.qualname, len(captured), cl.qualname.split(".")[-1]), fi.key, nontrivial=bool(captured))
